@@ -120,6 +120,14 @@ def run(ctx):
         first = rng.choice([{'op': 'P', 'g': gi[0], 'p': 0}, {'op': 'A', 'k': k, 'g': gi[0], 'p': 0}, {'op': 'At', 'k': k, 'g': gi[0]}])
         sp['opts']['ops'] = [first, {'op': 'P', 'g': 0, 'p': 0}, {'op': 'A', 'k': k, 'g': 0, 'p': 1}]
         specs.append(sp)
+    # plants / CHP units with an own start date (and ramp profiles), set up repeatedly
+    pl = gen.gen_many_plants(ctx.seed, n // 5, dict(CFG, freqs=['h'], units=['h'], tzs=[None], T=(4, 8), p_unaligned_end=0.0, p_window_plant=0.8, p_profile=0.4, p_inflow=0.0), 'c10p_')
+    for sp in pl:
+        rng = random.Random(str(sp['seed']) + '/ops')
+        sp['opts']['grids'] = [g for g in grid_variants(sp, rng) if g['freq'] == sp['grid']['freq'] and g.get('tz') == sp['grid'].get('tz')]
+        sp['opts']['ops'] = gen_ops(sp, rng, len(sp['opts']['grids']))
+        sp['opts']['ops'] = [o for o in sp['opts']['ops'] if o['op'] not in ('S', 'F', 'J')]
+        specs.append(sp)
     specs = ctx.specs(specs)
     res = C.run_impl('purity', specs)
     for sp, o in zip(specs, res):
